@@ -578,7 +578,7 @@ func run(c *ev.Ctx) {
 		nops := 40 + r.Intn(31)
 		ops := genHistory(r, nops)
 		seedA, seedB, seedC := r.Int63(), r.Int63(), r.Int63()
-		useLevel := r.Intn(8) == 0
+		useLevel := r.Intn(20) == 0 // opening a goleveldb allocates MiB-sized buffers: expensive under -race
 		c.Note("ops=%d seeds=%d/%d/%d leveldb=%v", len(ops), seedA, seedB, seedC, useLevel)
 		cs := &caseState{c: c, hashes: map[string]hashRec{}, logs: map[string][]string{}}
 
